@@ -1,0 +1,10 @@
+//go:build !verif
+
+package daemon
+
+import "net"
+
+// Pause points for the verification harness; no-ops in normal builds.
+func verifPause(point string, who any) {}
+
+func verifDaemonExit(connCh <-chan net.Conn) {}
